@@ -21,6 +21,7 @@ pub struct Norm {
     pub copied_to_map: bool,
     pub opaque_into: bool,
     pub option_combinators: bool,
+    pub keep_unreachable: bool,
     pub collect_as_set: Vec<String>,
     pub acc_type: Option<String>,
     pub extend_with: Option<Vec<(String, String)>>,
@@ -354,6 +355,7 @@ impl Norm {
             copied_to_map: req["copied_to_map"].as_bool().unwrap_or(false),
             opaque_into: req["opaque_into"].as_bool().unwrap_or(false),
             option_combinators: req["option_combinators"].as_bool().unwrap_or(false),
+            keep_unreachable: req["keep_unreachable"].as_bool().unwrap_or(false),
             collect_as_set: strs("collect_as_set"),
             acc_type: req["acc_type"].as_str().map(|x| x.to_string()),
             extend_with: req["extend_with"].as_array().map(|a| a.iter().filter_map(|x| x.as_str()).filter_map(|x| x.split_once(':')).map(|(a, b)| (a.to_string(), b.to_string())).collect()),
@@ -454,6 +456,12 @@ impl Norm {
             }
             "unreachable" | "panic" | "todo" | "unimplemented" => {
                 self.site(name, sp);
+                if self.diverge && self.keep_unreachable && name == "unreachable" {
+                    // option keep_unreachable=1: in a partial-correctness function `unreachable!()` stays an obligation
+                    // (the function's precondition must exclude the arm), every other panic still diverges
+                    self.log("N14-unreachable-kept", sp);
+                    return Some(parse_quote!(__hq_unreachable!()));
+                }
                 self.log(if self.diverge { "N14-panic-diverge" } else { "N3-panic-strip-msg" }, sp);
                 Some(self.panic_expr())
             }
